@@ -145,12 +145,13 @@ TYPE_PAIRS = [
     (LI, LI),                                              # 11
     (("Dict", STR, tInner), ("Dict", STR, tInnerDTO)),     # 12
     (INT, STR),                                            # 13 needs a user coercer
+    (opt(LI), opt(("TupleVar", INT))),                     # 14 real coercion below Optional (falsy [] must still become ())
 ]
 NTP = len(TYPE_PAIRS)
 FIELD_ORDER = "abcd"
 # profile ("U", i): every field has type pair i;  ("R", i): field a,b,c,d have pairs i, i+1, i+2, i+3 (mod NTP)
 ALL_PROFILES = [("U", i) for i in range(NTP)] + [("R", i) for i in range(NTP)]
-QUICK_PROFILES = [("U", 0), ("U", 9), ("R", 1), ("R", 5), ("R", 12)]
+QUICK_PROFILES = [("U", 0), ("U", 9), ("R", 1), ("R", 5), ("R", 12), ("U", 14)]
 
 
 def pair_of(profile, name):
